@@ -286,6 +286,23 @@ def _run_case_inner(ctx, case):
                 if ti is not None:
                     _judge(ctx, case, ti, signed, m, spk, amount, 'cosigner importing (dict) the transaction signed %d '
                            'times by one cosigner' % m, flags)
+        if case.get('ext_keys'):
+            # instead of hand-offs: the creator is given the master private keys of other cosigners and signs with all of
+            # them in ONE call (sign(keys=[...]), the form send(priv_keys=[...]) forwards to); each of them is a
+            # distinct cosigner like any other
+            others = [j for j in range(n) if j != creator]
+            ext = [others[(case['creator'] + z_) % len(others)] for z_ in range(min(case['ext_keys'], len(others)))]
+            ext = sorted(set(ext), key=ext.index)
+            try:
+                t.sign([hks[j] for j in ext])
+            except Exception as e:
+                bad('sign.raises', 'sign() with the master keys of cosigners %r raised %r' % (ext, e))
+            for s_ in signed:
+                s_.update(ext)
+            flags.add('external_master_keys_%d' % len(ext))
+            _judge(ctx, case, t, signed, m, spk, amount, 'creator + master keys of cosigners %r in one sign() call' % ext,
+                   flags)
+            return flags
         prev_medium = None
         for step, h in enumerate(case['handoffs']):
             j = part[h['signer'] % len(part)]
@@ -612,7 +629,7 @@ def _strategy(ctx):
                 'post_edit': draw(st.sampled_from([None, 'sign_replace', 'sign_and_update', 'sign'])),
                 'post_resign': draw(st.booleans()),
                 'special_r': draw(st.sampled_from([None, None, 0, 1, 2, 3, 4, 6, 8, 10])),
-                'bulk': draw(st.sampled_from([0, 0, 2, 3])), 'explicit_paths': draw(st.sampled_from([[], [], [[1, 4]], [[0, 2], [1, 1]], [[1, 4], [0, 3]]])), 'bulk_change': draw(st.sampled_from([0, 0, 1])), 'creator': draw(st.integers(0, n - 1)), 'handoffs': handoffs,
+                'bulk': draw(st.sampled_from([0, 0, 2, 3])), 'ext_keys': draw(st.sampled_from([0, 0, 0, 1, 2, 3])), 'explicit_paths': draw(st.sampled_from([[], [], [[1, 4]], [[0, 2], [1, 1]], [[1, 4], [0, 3]]])), 'bulk_change': draw(st.sampled_from([0, 0, 1])), 'creator': draw(st.integers(0, n - 1)), 'handoffs': handoffs,
                 'rng': draw(st.integers(0, 2 ** 31))}
     return cases()
 
